@@ -90,11 +90,24 @@ type Engine struct {
 	// HarnessErrors collects statements the model cannot parse or type: a harness problem, never a violation.
 	HarnessErrors []string
 	OnChange func(Change)
-	// BeforeSelect, if set, runs (without the engine lock) when a SELECT on a table arrives.
-	BeforeSelect func()
-	// AfterSelect runs (without the engine lock) after a SELECT computed its rows and
-	// before they are handed back to the caller.
-	AfterSelect func()
+	hookMu       sync.Mutex
+	beforeSelect func()
+	afterSelect  func()
+}
+
+// SetSelectHooks installs functions that run (without the engine lock) when a SELECT on a
+// table arrives, and after it computed its rows but before they are handed back. Connections
+// of other goroutines (the binlog loop's column queries) read them concurrently.
+func (e *Engine) SetSelectHooks(before, after func()) {
+	e.hookMu.Lock()
+	e.beforeSelect, e.afterSelect = before, after
+	e.hookMu.Unlock()
+}
+
+func (e *Engine) selectHooks() (func(), func()) {
+	e.hookMu.Lock()
+	defer e.hookMu.Unlock()
+	return e.beforeSelect, e.afterSelect
 }
 
 func timeCanon(t time.Time) time.Time { return t.UTC().Truncate(time.Microsecond) }
@@ -156,6 +169,14 @@ func (e *Engine) AddColumn(table string) {
 	e.mu.Lock()
 	e.tables[table].def.ExtraCols++
 	e.mu.Unlock()
+}
+
+// NCols is the current number of database columns of a table (struct columns + added ones).
+func (e *Engine) NCols(table string) int {
+	e.mu.Lock()
+	defer e.mu.Unlock()
+	d := e.tables[table].def
+	return len(d.Cols) + d.ExtraCols
 }
 
 // Rows returns a copy of the committed rows of a table.
@@ -789,12 +810,13 @@ func (c *conn) QueryContext(ctx context.Context, q string, args []driver.NamedVa
 		return nil, err
 	}
 	isSel := strings.HasPrefix(q, "SELECT") && !strings.Contains(q, "information_schema")
-	if h := c.s.e.BeforeSelect; h != nil && isSel {
-		h()
+	before, after := c.s.e.selectHooks()
+	if before != nil && isSel {
+		before()
 	}
 	r, err := c.s.query(q, named(args))
-	if h := c.s.e.AfterSelect; h != nil && isSel && err == nil {
-		h()
+	if after != nil && isSel && err == nil {
+		after()
 	}
 	return r, err
 }
